@@ -21,10 +21,12 @@ def assert_valid_comodo(ds):
 
 
 def get_all_axes(ds):
-    axes = set()
+    # in order of first appearance (a set would make the order of the axes of the
+    # resulting Grid depend on the hash seed)
+    axes = []
     for d in ds.dims:
-        if "axis" in ds[d].attrs:
-            axes.add(ds[d].attrs["axis"])
+        if "axis" in ds[d].attrs and ds[d].attrs["axis"] not in axes:
+            axes.append(ds[d].attrs["axis"])
     return axes
 
 
